@@ -140,7 +140,7 @@ theorem conforming_client_accepted (guid : Bytes) (w : RealWorld) :
         reads.flatten = 0 :: encodeLines [lit "AUTH ANONYMOUS", lit "BEGIN"] →
         (runReads real (Proto.init guid w) reads).authenticated = true ∧
         (runReads real (Proto.init guid w) reads).closed = false) ∧
-    (∀ (uid : Nat) (e : PwEnt), w.cfg.creds = some uid → getpwuid w.cfg uid = some e →
+    (∀ (uid : Int) (e : PwEnt), w.cfg.creds = some uid → getpwuidI w.cfg uid = some e →
       ∀ reads : List Bytes, (∀ r ∈ reads, r ≠ []) →
         reads.flatten = 0 :: encodeLines [lit "AUTH EXTERNAL", lit "DATA", lit "BEGIN"] →
         (runReads real (Proto.init guid w) reads).authenticated = true ∧
